@@ -5,8 +5,8 @@
      hdr_law   = `py_hdr_plain` below: add_aligned_u32 is four plain byte stores (`self._buf[i] = v`), proved here WITHOUT the
                  invariant, because the nested object already sits behind the header when the parent writes it
    Result: `py_walk_ser_refines` - the Python templates' shape over the shipped Serializer emits the specification's bytes. *)
-From Verif Require Import Bits CPrims CPrimsThm PyPrims PyPrimsThm PyPrimsMoreThm.
-From Verif Require Import Wire WireThm WireThmRt TargetPre TargetPreThm Walker InstancesBase InstancesPy PyWalker PyWalkerThm PyWalkerPre.
+From Verif Require Import Bits CPrims CPrimsThm PyPrims PyPrimsThm PyPrimsMoreThm PyPrimsBitsThm PrimsExt PrimsExtThm.
+From Verif Require Import Wire WireThm WireThmRt TargetPre TargetPreThm Walker InstancesBase InstancesPy BulkArrays PyWalker PyWalkerThm PyWalkerPre.
 Local Open Scope nat_scope.
 
 (* a plain store of n bits f at the (byte-aligned) cursor: nothing else changes *)
@@ -79,7 +79,76 @@ Definition py_hdr_store (buf : list bool) (off : nat) (x : N) : option (list boo
   | None => None
   end.
 
-Definition py_pyprims : pyprims := {| p_add := py_set_bits; p_hdr := py_hdr_store |}.
+(* ---- the bulk array adders ---- *)
+(* a Serializer state on the buffer, with the invariant and capacity facts every adder needs *)
+Lemma py_ser_at_facts buf off : length buf mod 8 = 0 -> zero_from buf off ->
+  Inv (py_ser_at buf off) /\ bytes_ok (s_buf (py_ser_at buf off)) /\
+  blen (s_buf (py_ser_at buf off)) = (N.of_nat (length buf / 8) + 1)%N.
+Proof.
+  intros Hm Hz. assert (Hbl : length (bytes_of_bits buf) = length buf / 8) by (apply bytes_of_bits_length; exact Hm).
+  split; [|split].
+  - intros p Hp. unfold py_ser_at in *. cbn [s_buf s_off] in *.
+    replace p with (N.of_nat (N.to_nat p)) by lia. rewrite (bit_spare buf _ Hm). apply Hz. lia.
+  - unfold py_ser_at. cbn [s_buf]. apply Forall_app. split; [apply bytes_of_bits_bytes_ok|]. constructor; [lia | constructor].
+  - unfold py_ser_at, blen. cbn [s_buf]. rewrite app_length, Hbl. cbn [length]. lia.
+Qed.
+
+(* what any `appended` result looks like on the bit list *)
+Lemma appended_stored buf off v s' f : length buf mod 8 = 0 -> off + length v <= length buf -> zero_from buf off ->
+  appended (py_ser_at buf off) s' (N.of_nat (length v)) f -> (forall k, k < length v -> f (N.of_nat k) = nth k v false) ->
+  firstn (length buf) (bits_of_bytes (s_buf s')) = firstn off buf ++ v ++ skipn (off + length v) buf.
+Proof.
+  intros Hm Hfit Hz (Hoff & Hlen & _ & Hbit) Hf.
+  assert (Hbl : length (bytes_of_bits buf) = length buf / 8) by (apply bytes_of_bits_length; exact Hm).
+  assert (Hlen' : length (s_buf s') = length buf / 8 + 1).
+  { rewrite Hlen. unfold py_ser_at. cbn [s_buf]. rewrite app_length, Hbl. reflexivity. }
+  apply bits_ext.
+  - rewrite firstn_length, bits_of_bytes_length, Hlen', !app_length, firstn_length, skipn_length. lia.
+  - intros p Hp. rewrite firstn_length, bits_of_bytes_length, Hlen' in Hp.
+    rewrite nth_firstn_low by lia. rewrite <- bit_bits_of_bytes, Hbit. rewrite (nth_store buf v off p) by lia.
+    unfold py_ser_at. cbn [s_buf s_off]. rewrite (bit_spare buf p Hm).
+    destruct (N.ltb_spec (N.of_nat p) (N.of_nat off)) as [A|A]; destruct (Nat.leb_spec off p) as [A'|A']; try lia;
+      cbn [andb]; [reflexivity|].
+    destruct (N.ltb_spec (N.of_nat p) (N.of_nat off + N.of_nat (length v))) as [C|C];
+      destruct (Nat.ltb_spec p (off + length v)) as [C'|C']; try lia.
+    + replace (N.of_nat p - N.of_nat off)%N with (N.of_nat (p - off)) by lia. apply Hf. lia.
+    + symmetry. apply Hz. lia.
+Qed.
+
+(* add_aligned_array_of_bits / add_unaligned_array_of_bits, selected by the cursor's alignment *)
+Definition py_bits_store (buf : list bool) (off : nat) (v : list bool) : option (list bool) :=
+  let s := py_ser_at buf off in
+  match (if off mod 8 =? 0 then add_aligned_array_of_bits s v else add_unaligned_array_of_bits s v) with
+  | Some s' => Some (firstn (length buf) (bits_of_bytes (s_buf s')))
+  | None => None
+  end.
+
+(* the elements of the NumPy array whose little-endian memory image has the bits v *)
+Fixpoint chunksN (n w : nat) (v : list bool) : list N :=
+  match n with O => [] | S n' => N_of_bits (firstn w v) :: chunksN n' w (skipn w v) end.
+
+Lemma chunksN_length n w : forall v, length (chunksN n w v) = n.
+Proof. induction n as [|n IH]; intros v; cbn [chunksN length]; [reflexivity | rewrite IH; reflexivity]. Qed.
+
+Lemma concat_chunksN n w : forall v, length v = n * w -> concat (map (bits_of_N w) (chunksN n w v)) = v.
+Proof.
+  induction n as [|n IH]; intros v Hl; cbn [chunksN map concat].
+  - destruct v; [reflexivity | cbn [length] in Hl; lia].
+  - assert (Hw : length (firstn w v) = w) by (rewrite firstn_length; lia).
+    rewrite <- Hw at 1. rewrite bits_of_N_of_bits. rewrite IH by (rewrite skipn_length; lia). apply firstn_skipn.
+Qed.
+
+(* add_aligned_ / add_unaligned_array_of_standard_bit_length_primitives on elements of w bits *)
+Definition py_std_store (w : nat) (buf : list bool) (off : nat) (v : list bool) : option (list bool) :=
+  let s := py_ser_at buf off in
+  let xs := chunksN (length v / w) w v in
+  match (if off mod 8 =? 0 then add_aligned_array_std s (w / 8) xs else add_unaligned_array_std s (w / 8) xs) with
+  | Some s' => Some (firstn (length buf) (bits_of_bytes (s_buf s')))
+  | None => None
+  end.
+
+Definition py_pyprims : pyprims :=
+  {| p_add := py_set_bits; p_hdr := py_hdr_store; p_bits := py_bits_store; p_std := py_std_store |}.
 
 Theorem py_hdr_plain : forall L, L mod 8 = 0 -> hdr_law py_pyprims L.
 Proof.
@@ -114,6 +183,40 @@ Proof.
   destruct (py_store_inv buf off v ltac:(rewrite Hl; exact HLm) Hv ltac:(lia) Hz) as (b & -> & -> & _). reflexivity.
 Qed.
 
+Theorem py_bulk_law : forall L, L mod 8 = 0 -> bulk_law py_pyprims L.
+Proof.
+  intros L HLm buf off v Hl Hfit Hz. cbn [p_bits p_std py_pyprims].
+  assert (Hm : length buf mod 8 = 0) by (rewrite Hl; exact HLm).
+  destruct (py_ser_at_facts buf off Hm Hz) as (HI & Hok & Hblen).
+  split.
+  - unfold py_bits_store.
+    assert (Happ : exists s', (if off mod 8 =? 0 then add_aligned_array_of_bits (py_ser_at buf off) v
+                               else add_unaligned_array_of_bits (py_ser_at buf off) v) = Some s' /\
+                              appended (py_ser_at buf off) s' (N.of_nat (length v)) (nthb v)).
+    { destruct (Nat.eqb_spec (off mod 8) 0) as [Ha|Ha].
+      - apply add_aligned_array_of_bits_appends; try assumption; unfold py_ser_at in *; cbn [s_off s_buf] in *; rewrite ?Hblen; lia.
+      - apply add_unaligned_array_of_bits_appends; try assumption; unfold py_ser_at in *; cbn [s_off s_buf] in *; rewrite ?Hblen; lia. }
+    destruct Happ as (s' & -> & Happ). f_equal.
+    apply (appended_stored buf off v s' (nthb v) Hm ltac:(lia) Hz Happ).
+    intros k _. unfold nthb. rewrite Nat2N.id. reflexivity.
+  - intros w Hw0 Hw8 Hvw. unfold py_std_store.
+    set (n := length v / w). set (xs := chunksN n w v).
+    assert (Hlv : length v = n * w) by (unfold n; pose proof (Nat.div_mod (length v) w ltac:(lia)); lia).
+    assert (Hk : 8 * (w / 8) = w /\ 0 < w / 8) by (split; pose proof (Nat.div_mod w 8 ltac:(lia)); lia).
+    destruct Hk as [Hk8 Hk0].
+    assert (Hxs : length xs = n) by apply chunksN_length.
+    assert (Hnbits : (8 * (N.of_nat (w / 8) * N.of_nat (length xs)) = N.of_nat (length v))%N) by (rewrite Hxs; nia).
+    assert (Happ : exists s', (if off mod 8 =? 0 then add_aligned_array_std (py_ser_at buf off) (w / 8) xs
+                               else add_unaligned_array_std (py_ser_at buf off) (w / 8) xs) = Some s' /\
+                              appended (py_ser_at buf off) s' (8 * (N.of_nat (w / 8) * N.of_nat (length xs))) (bit (le_image (w / 8) xs))).
+    { destruct (Nat.eqb_spec (off mod 8) 0) as [Ha|Ha].
+      - apply (add_array_std_appends true); try assumption. unfold py_ser_at in *; cbn [s_off s_buf] in *. rewrite ?Hblen. split; nia.
+      - apply (add_array_std_appends false); try assumption. left. unfold py_ser_at in *; cbn [s_off s_buf] in *. rewrite ?Hblen. nia. }
+    destruct Happ as (s' & -> & Happ). rewrite Hnbits in Happ. f_equal.
+    apply (appended_stored buf off v s' _ Hm ltac:(lia) Hz Happ).
+    intros k Hk. rewrite le_image_bits by exact Hk0. rewrite Hk8. unfold xs. rewrite concat_chunksN by exact Hlv. reflexivity.
+Qed.
+
 (* ---- the Python serialization refinement about the shipped Serializer, with the explicit Python leaf
    (Spec/TargetPre.v `py_enc_prim`: round-half-EVEN float16 etc.): the bytes are the specification's encoding of the PRE-ADJUSTED
    value `py_pre t v` (= C03's `target_pre TgPy`): an exact float16 tie whose away-rounded half is odd is emitted as its even
@@ -122,7 +225,8 @@ Theorem py_walk_ser_refines : forall u fs ext v cap,
   wf_ty (TComp u fs ext) = true -> bmax (TComp u fs ext) <= 8 * cap ->
   py_walk_ser py_pyprims py_enc_prim (TComp u fs ext) v cap = ser_spec (TComp u fs ext) (py_pre (TComp u fs ext) v) cap.
 Proof.
-  intros u fs ext v cap Hwf Hge. apply py_walk_ser_pre_refines_on; try assumption; [apply py_add_law | apply py_hdr_plain]; lia.
+  intros u fs ext v cap Hwf Hge.
+  apply py_walk_ser_pre_refines_on; try assumption; [apply py_add_law | apply py_hdr_plain | apply py_bulk_law]; lia.
 Qed.
 
 Corollary py_walk_ser_refines_tie_free : forall u fs ext v cap,
